@@ -51,7 +51,10 @@ type JoinOpts struct {
 	Ready                    bool
 	// ZeroResources: resources the kubelet has not reported yet (zero-valued in status)
 	ZeroResources []string
-	ExtraTaints   []corev1.Taint
+	// AbsentResources: resources missing altogether from the node status (device plugin not registered yet, or - with
+	// "*" - the kubelet has not posted any status)
+	AbsentResources []string
+	ExtraTaints     []corev1.Taint
 }
 
 // JoinNode emulates the kubelet registering the Node of a launched NodeClaim: provider labels, the taints passed on
@@ -86,6 +89,14 @@ func (w *World) JoinNode(nc *v1.NodeClaim, o JoinOpts) *corev1.Node {
 			a.Set(0)
 			alloc[corev1.ResourceName(r)] = a
 		}
+	}
+	for _, r := range o.AbsentResources {
+		if r == "*" {
+			capacity, alloc = corev1.ResourceList{}, corev1.ResourceList{}
+			break
+		}
+		delete(capacity, corev1.ResourceName(r))
+		delete(alloc, corev1.ResourceName(r))
 	}
 	now := metav1.NewTime(w.Clock.Now())
 	node := &corev1.Node{
